@@ -86,6 +86,7 @@ fn tails_for(expected: &str) -> Vec<String> {
 /// Compare one input on one rule with every oracle.  `model`: expected by the slicing model.
 fn check(ctx: &mut Ctx, gi: &GInfo, rule: usize, input: &str, model: Option<Option<usize>>, nontrivial: bool, class: &str) -> CaseResult {
     ctx.ev.eval();
+    ctx.progress.fetch_add(1, std::sync::atomic::Ordering::Relaxed);
     let name = gi.rules[rule].0.clone();
     let exp = match p01::expected(ctx, gi, rule, input) {
         Some(e) => e,
